@@ -638,6 +638,17 @@ static Token *subst(Token *tok, MacroArg *args) {
       if (tok->next->kind == TK_EOF)
         error_tok(tok, "'##' cannot appear at end of macro expansion");
 
+      // The right operand may be a stringized parameter, as in
+      // 'L ## #x'; # is evaluated before ## can see its result.
+      if (equal(tok->next, "#") && find_arg(args, tok->next->next)) {
+        bool at_bol = cur->at_bol, has_space = cur->has_space;
+        *cur = *paste(cur, stringize(tok->next, find_arg(args, tok->next->next)->tok));
+        cur->at_bol = at_bol;
+        cur->has_space = has_space;
+        tok = tok->next->next->next;
+        continue;
+      }
+
       MacroArg *arg = find_arg(args, tok->next);
       if (arg) {
         if (arg->tok->kind != TK_EOF) {
@@ -673,7 +684,10 @@ static Token *subst(Token *tok, MacroArg *args) {
       // list, so its first token has the white space of the parameter.
       Token *prev = cur;
 
-      if (arg->tok->kind == TK_EOF) {
+      if (arg->tok->kind == TK_EOF && equal(rhs, "#") && find_arg(args, rhs->next)) {
+        cur = cur->next = stringize(rhs, find_arg(args, rhs->next)->tok);
+        tok = rhs->next->next;
+      } else if (arg->tok->kind == TK_EOF) {
         MacroArg *arg2 = find_arg(args, rhs);
         if (arg2) {
           for (Token *t = arg2->tok; t->kind != TK_EOF; t = t->next)
